@@ -19,11 +19,12 @@ import (
 // the next response, whatever is recycled internally.
 func TestC15AfterHijackedExchange(t *testing.T) {
 	sub := lab.Sub("round-trip-after-hijacked-exchange", "rapid: gzip alone or wrapped by logging/size_limit, level/min_size drawn; 5-40 exchanges mixing Upgrade requests (the terminal handler hijacks, answers 101 and closes; client sent Accept-Encoding: gzip), "+
-		"ABORTED exchanges (the handler writes the head and 1..3 parts of its body, with or without a declared Content-Length, then panics with http.ErrAbortHandler as the reverse proxy does when a backend dies mid-body) "+
-		"and ordinary responses (status 200/404/500, text/plain, 0-5000 bytes, 1-3 writes, explicit or implicit WriteHeader; every exchange has its own body text); oracle: every ordinary response decodes (per received Content-Encoding/framing) to exactly the handler's body with its status; "+
+		"ABORTED exchanges (the handler is producing a body of size+tail bytes, tail in {1,100,4096}: it writes the head - with or without that Content-Length declared - and the first size bytes in 1..3 writes, then panics with http.ErrAbortHandler as the reverse proxy does when a backend dies mid-body) "+
+		"and ordinary responses (status 200/404/500, text/plain, 0-5000 bytes, 1-3 writes, explicit or implicit WriteHeader; every exchange has its own body text); oracle: every ordinary response decodes (per received Content-Encoding/framing) to exactly the handler's body with its status; an aborted exchange must not reach the client as a response that is complete by its own framing (Content-Length delivered in full / terminating chunk present), carries the handler's status and decodes cleanly - a visibly broken one (connection closed early, gzip stream without end) is fine; "+
 		"non-trivial = an ordinary compressible response directly after a hijacked or aborted exchange")
 	sub.Floor("after-aborted-exchange", 0.5)
 	sub.Floor("after-hijacked-exchange", 0.5)
+	sub.Floor("aborted-exchange-judged", 0.6)
 	lab.Check(t, sub, 150, 4000, func(rt *rapid.T) {
 		chain := rapid.SampledFrom([][]string{{"gzip"}, {"logging", "gzip"}, {"gzip", "logging"}, {"size_limit", "gzip"}}).Draw(rt, "chain")
 		level := rapid.IntRange(-1, 9).Draw(rt, "level")
@@ -33,6 +34,7 @@ func TestC15AfterHijackedExchange(t *testing.T) {
 			hijack   bool
 			abort    bool
 			declare  bool
+			tail     int // abort: number of body bytes the handler still had to write when it broke off
 			status   int
 			size     int
 			writes   int
@@ -42,7 +44,8 @@ func TestC15AfterHijackedExchange(t *testing.T) {
 		for i := range plans {
 			kind := rapid.IntRange(0, 5).Draw(rt, "kind")
 			plans[i] = plan{hijack: kind == 0, abort: kind == 1, declare: rapid.Bool().Draw(rt, "declare"), status: rapid.SampledFrom([]int{200, 200, 404, 500}).Draw(rt, "status"),
-				size: rapid.SampledFrom([]int{0, 1, 63, 64, 700, 5000}).Draw(rt, "size"), writes: rapid.IntRange(1, 3).Draw(rt, "writes"), explicit: rapid.Bool().Draw(rt, "explicit")}
+				size: rapid.SampledFrom([]int{0, 1, 63, 64, 700, 5000}).Draw(rt, "size"), writes: rapid.IntRange(1, 3).Draw(rt, "writes"), explicit: rapid.Bool().Draw(rt, "explicit"),
+				tail: rapid.SampledFrom([]int{1, 100, 4096}).Draw(rt, "tail")}
 		}
 		type job struct {
 			plan
@@ -69,13 +72,15 @@ func TestC15AfterHijackedExchange(t *testing.T) {
 			w.Header().Set("Content-Type", "text/plain")
 			body := bodyOfExchange(p.size, p.idx)
 			if p.abort {
-				// head + a few parts of a body that is announced (or meant) to be longer, then the abort
+				// the handler is producing a body of size+tail bytes (announced as Content-Length or not): head,
+				// the first size bytes in 1..3 writes, then the abort
 				if p.declare {
-					w.Header().Set("Content-Length", fmt.Sprint(len(body)+4096))
+					w.Header().Set("Content-Length", fmt.Sprint(len(body)+p.tail))
 				}
 				w.WriteHeader(p.status)
-				for k := 0; k < p.writes; k++ {
-					_, _ = w.Write(body)
+				per := (len(body) + p.writes - 1) / p.writes
+				for off := 0; off < len(body); off += per {
+					_, _ = w.Write(body[off:min(off+per, len(body))])
 				}
 				panic(http.ErrAbortHandler)
 			}
@@ -106,7 +111,7 @@ func TestC15AfterHijackedExchange(t *testing.T) {
 		}
 		defer l.Close()
 		afterHijack, afterAbort, nt := false, false, false
-		sawHijack, sawAbort := false, false
+		sawHijack, sawAbort, sawAbortJudged := false, false, false
 		var viol string
 		for i, p := range plans {
 			cur <- job{p, i}
@@ -125,8 +130,15 @@ func TestC15AfterHijackedExchange(t *testing.T) {
 				continue
 			}
 			if p.abort {
-				// whatever reaches the client of an aborted exchange is outside the statement
-				_, _ = lab.Do(l.Addr, &lab.RawRequest{Method: "GET", Target: "/a", Framing: "none", Header: hdr}, 10*time.Second)
+				// The complete body never existed, so no round trip can be demanded; but the client must not be
+				// handed a complete, cleanly decoding response under the handler's status (JudgeAborted)
+				out, err := lab.Do(l.Addr, &lab.RawRequest{Method: "GET", Target: "/a", Framing: "none", Header: hdr}, 10*time.Second)
+				sawAbortJudged = true
+				what := fmt.Sprintf("handler wrote the head and %d of %d body bytes (Content-Length declared: %v), then panicked with http.ErrAbortHandler", p.size, p.size+p.tail, p.declare)
+				if v := JudgeAborted(p.status, "", bodyOfExchange(p.size, i), what, out, err); v != "" {
+					viol = fmt.Sprintf("exchange #%d (chain %v, level %d, min_size %d): %s", i, chain, level, minSize, v)
+					break
+				}
 				afterAbort = true
 				continue
 			}
@@ -168,6 +180,9 @@ func TestC15AfterHijackedExchange(t *testing.T) {
 		}
 		if sawAbort {
 			labels = append(labels, "after-aborted-exchange")
+		}
+		if sawAbortJudged {
+			labels = append(labels, "aborted-exchange-judged")
 		}
 		sub.Case(map[string]any{"chain": chain, "level": level, "min_size": minSize, "exchanges": n}, nt, labels...)
 		if viol != "" {
